@@ -60,7 +60,7 @@ class Check(BaseCheck):
 
     def correspond(self, drv, stats):
         fails = []
-        for case in self.flow_cases(self.seed, 14 if self.quick else 150):
+        for case in self.flow_cases(self.seed, 14 if self.quick else 1200):
             v, t = case["v"], case["t"]
             gen.use(case)
             stats.case(core.mesh_key(v, t, case["max_iter"], case["step"]), cls=["flow:" + case["name"], "max_iter:%d" % case["max_iter"]],
